@@ -65,6 +65,11 @@ pub fn check_batch(piece: Piece, from: Square, to: u64, all_queries: bool, sink:
     t.evals += 1;
     if piece == Piece::Pawn && to & 0xFF000000000000FF != 0 {
         t.nontrivial += 1;
+        t.hit(if to & !0xFF000000000000FF != 0 { "pawn batch: promotion and plain destinations" } else { "pawn batch: promotion destinations only" });
+    } else if piece == Piece::Pawn {
+        t.hit("pawn batch: plain destinations only");
+    } else {
+        t.hit("non-pawn batch");
     }
     let r = guarded(|| {
         let mut problems: Vec<(&'static str, String)> = Vec::new();
